@@ -6,6 +6,7 @@
    Generated once by tools/genprops.py from the proved lemmas (statements restated verbatim). *)
 From Coq Require Import List NArith ZArith Bool Lia Sorting.Sorted.
 From Viv Require Import Base.Assoc Base.Tree Model.Emit Proofs.Emit_proofs Model.Sched Model.SchedC Proofs.Sched_defs Proofs.Sched_clock_proofs Proofs.Sched_once_proofs Proofs.SchedC_witness.
+From Viv Require Import Model.EmitFlags Proofs.EmitFlags_proofs.
 Import ListNotations.
 Open Scope Z_scope.
 
@@ -212,6 +213,43 @@ Theorem C12_unflagged_quantity_not_emitted :
   forall m vs ds : Z, emit_data (EQty m vs ds false) = None.
 Proof. exact @unflagged_quantity_not_emitted. Qed.
 Print Assumptions C12_unflagged_quantity_not_emitted.
+
+(* Model/EmitFlags.v: after an explicit request for a variable (store_schema or set_emit_value, on the variable or on its branch), whatever schemas arrive afterwards - port schemas of daughters or generated agents, sub-schemas re-applied - the variable is emitted or not as requested (repair F93, the former known finding K37) *)
+Theorem C12_explicit_flag_sticks :
+  forall (x : bool) (pre : list fop) (o : fop) (post : list fop) (s : leaf * leaf),
+         is_request o = true ->
+         touches (op_target o) x = true ->
+         forallb (fun o0 : fop => negb (is_request o0)) post = true ->
+         emit (pick x (frun s (pre ++ o :: post))) = op_value o.
+Proof. exact @explicit_flag_sticks. Qed.
+Print Assumptions C12_explicit_flag_sticks.
+
+(* a later explicit request that concerns the variable replaces the earlier one (F94); requests for other variables and schemas do not *)
+Theorem C12_last_request_wins :
+  forall (x : bool) (pre : list fop) (o : fop) (post : list fop) (s : leaf * leaf),
+         is_request o = true ->
+         touches (op_target o) x = true ->
+         forallb (fun o' : fop => negb (is_request o' && touches (op_target o') x)) post = true ->
+         emit (pick x (frun s (pre ++ o :: post))) = op_value o.
+Proof. exact @last_request_wins. Qed.
+Print Assumptions C12_last_request_wins.
+
+(* without any explicit request the last schema that names the variable decides *)
+Theorem C12_unpinned_last_schema_wins :
+  forall (x : bool) (pre : list fop) (t : target) (b : bool) (s : leaf * leaf),
+         forallb (fun o : fop => negb (is_request o)) (pre ++ [Schema t b]) = true ->
+         pinned (pick x s) = false ->
+         touches t x = true -> emit (pick x (frun s (pre ++ [Schema t b]))) = b.
+Proof. exact @unpinned_last_schema_wins. Qed.
+Print Assumptions C12_unpinned_last_schema_wins.
+
+(* the pinned code: a schema arriving after store_schema switched a branch off switches a variable on again *)
+Theorem C12_flag_flipped_refuted_pinned_code :
+  let s0 := ({| emit := true; pinned := false |}, {| emit := false; pinned := false |}) in
+         let ops := [StoreSchema TBranch false; Schema TX true] in
+         emit (fst (frun_pinned_code s0 ops)) = true /\ emit (fst (frun s0 ops)) = false.
+Proof. exact @flag_flipped_refuted_pinned_code. Qed.
+Print Assumptions C12_flag_flipped_refuted_pinned_code.
 
 
 (* ---- non-vacuity: a reachable state of a concrete composite meets the hypotheses ---- *)
